@@ -107,6 +107,7 @@ def doc_cost(U, Psi, Theta, q, a_tik, a_other, reg, square):
 
 
 def oracle_fit(ctx, thorough):
+    snap = ctx.snap()
     rng = ctx.rng
     nx, nu = rng.randint(1, 3), rng.randint(0, 2)
     X, kw, _, _ = lc.lin_data(rng, nx, nu, radius=rng.choice([0.7, 0.95]), noise=0.05)
@@ -132,7 +133,7 @@ def oracle_fit(ctx, thorough):
     else:
         est = lmi.LmiDmdc(alpha=alpha, ratio=ratio, reg_method=reg, square_norm=square, solver_params=dict(lc.SOLVER))
     case = {'family': fam, 'reg': reg, 'alpha': alpha, 'ratio': ratio, 'square': square, 'inv': inv if fam == 'edmd' else None,
-            'nx': nx, 'nu': nu, 'X': X.tolist()}
+            'nx': nx, 'nu': nu, 'X': X.tolist(), 'replay': {'rng': snap, 'thorough': thorough}}
     try:
         est.fit(X, **kw)
     except Exception as ex:
@@ -270,5 +271,14 @@ def run(ctx):
 
 
 def replay(ctx, path):
-    print(open(path).read()[:3000])
-    return 1
+    """re-execute the oracle call that produced the replay (same PRNG state)"""
+    obj = json.load(open(path))
+    r = (obj.get('case') or {}).get('replay') if isinstance(obj.get('case'), dict) else None
+    print(json.dumps({k: v for k, v in obj.items() if k != 'case'}, indent=1)[:1500])
+    if not r:
+        print('this replay carries no re-executable oracle call (broken proof / correspondence: see "broken")')
+        return 1
+    ctx.restore(r['rng'])
+    why, case, note = oracle_fit(ctx, r['thorough'])
+    print('oracle now:', why or 'property holds on this input', '' if note is None else f'({note})')
+    return 1 if why else 0
